@@ -301,8 +301,11 @@ Definition apply_op (g : cfg) (s : st) (op : bs) : st :=
   else if bs_eqb name (B "finish") then      (* finish:<t>:<outcome>:<idem>:<dialfail> *)
     let t := parse_nat (nth 1 f []) in
     after_exchange g (flag 4) t (step_or g s (LExchange t (outcome_of (nth 2 f [])) (flag 3)))
-  else if bs_eqb name (B "expire") then
-    settle 50 g false (fold_left (fun s t => step_or g s (LTimeout t)) (waiting_callers s (nt s)) s)
+  else if bs_eqb name (B "expire") then      (* expire | expire:<t> : every waiter's / one waiter's wait timer fires *)
+    match f with
+    | [_; t] => settle 50 g false (step_or g s (LTimeout (parse_nat t)))
+    | _ => settle 50 g false (fold_left (fun s t => step_or g s (LTimeout t)) (waiting_callers s (nt s)) s)
+    end
   else if bs_eqb name (B "closeidle") then
     settle 50 g false (close_all_idle 50 g s)
   else s.
